@@ -341,7 +341,8 @@ class Observer:
                         info["pole"] += 1
                     else:
                         dl = np.abs(np.diff(ring[:, 0]))
-                        if (dl >= 180.0).any():
+                        polar = np.abs(np.abs(ring[:, 1]) - 90.0) < 1e-4
+                        if any(dl[j] >= 180.0 and not (polar[j] or polar[j + 1]) for j in range(len(dl))):
                             info["spans"] += 1
                         per_face_area[got] = per_face_area.get(got, 0.0) + sph_area(ring)
                 owner.add(-1 if got is None else got)
@@ -364,8 +365,24 @@ class Observer:
                 continue
             rows, rev = r
             info = None
-            if pe == "split" and system == "raw" and any(x < 0 for x in rows):
-                rows, info = self.ident_pieces(parts_per_row, p, list(rows))
+            if pe == "split" and system == "raw":
+                if any(x < 0 for x in rows):
+                    rows, info = self.ident_pieces(parts_per_row, p, list(rows))
+                info = info or dict(pieces=0, spans=0, badarea=0, pole=0)
+                # hard clause for EVERY ring a 'split' export contains — whole faces as well as pieces, frames,
+                # polygon and line collections alike: no boundary segment spans >= 180 deg of longitude (a
+                # crossing face handed back uncut has one).  A corner at a pole has no longitude of its own.
+                info["uncut"] = 0
+                for parts in parts_per_row:
+                    for ring in parts:
+                        ring = np.asarray(ring, dtype=float)
+                        if len(ring) < 2 or np.isnan(ring).any():
+                            continue
+                        dl = np.abs(np.diff(ring[:, 0]))
+                        polar = np.abs(np.abs(ring[:, 1]) - 90.0) < 1e-4
+                        if any(dl[j] >= 180.0 and not (polar[j] or polar[j + 1]) for j in range(len(dl))):
+                            info["uncut"] += 1
+                info["rings"] = sum(len(parts) for parts in parts_per_row)
             good = sum(1 for x in rows if x >= 0)
             cand = (good, rows, tag, rev, info)
             if best is None or good > best[0]:
@@ -627,7 +644,7 @@ def judge_history(ctx, ux, t: Truth, ops, tag, fresh_memo, record=True):
         verdicts.append(cl)
         # float-level oracle of the 'split' pieces (not a Lean clause)
         pinfo = (o.get("notes") or {}).get("pieces") if not o["err"] else None
-        if pinfo and (pinfo["spans"] or pinfo["badarea"]) and not cl:
+        if pinfo and (pinfo["spans"] or pinfo["badarea"] or pinfo.get("uncut")) and not cl:
             cl = ["split_pieces"]
             verdicts[-1] = cl
         if cl:
@@ -681,7 +698,7 @@ def judge_history(ctx, ux, t: Truth, ops, tag, fresh_memo, record=True):
             if f["step"] == s:
                 fcl = lean_spec(ctx, t, op, fo)
                 pinfo = (fo.get("notes") or {}).get("pieces") if not fo["err"] else None
-                if pinfo and (pinfo["spans"] or pinfo["badarea"]) and not fcl:
+                if pinfo and (pinfo["spans"] or pinfo["badarea"] or pinfo.get("uncut")) and not fcl:
                     fcl = ["split_pieces"]
                 f["fresh_fails"], f["fresh_clauses"], f["fresh_obs"], f["fresh_same"] = bool(fcl), fcl, fo, same
     return fails, outs, altered, verdicts
@@ -744,6 +761,7 @@ def report(ctx, ux, t: Truth, ops, tag, fresh_memo):
             if pi:
                 ctx.hit("split-pieces-judged", pi["pieces"])
                 ctx.hit("split-faces-judged-for-area-on-the-sphere", pi.get("areas", 0))
+                ctx.hit("split-rings-judged-for-180deg-span", pi.get("rings", 0))
                 ctx.hit("split-pole-face-pieces(not judged for area)", pi["pole"])
         else:
             ctx.hit("raises:" + str(o["exc"]))
@@ -882,6 +900,52 @@ def strip(rng, k=None, clockwise=False):
     return faces, np.array(lon), np.array(lat), "strip-cw" if clockwise else "strip"
 
 
+def crossing_at(rng):
+    """grids of 3 (and 4) disjoint faces of mixed sizes with exactly NONE / ONE / TWO crossing faces, in EVERY face
+    order — so the single crossing face is face 0, a middle face, the last face (index arrays [0], [1], [2], [0 1],
+    [0 2], [1 2], [])"""
+    import itertools
+
+    def face(c, clat, m, r, a0):
+        lo, la = [], []
+        for j in range(m):
+            a = math.radians(a0 + 360.0 * j / m)
+            lo.append(float(wrap(c + r * math.cos(a) / max(0.3, math.cos(math.radians(clat))))))
+            la.append(clat + r * math.sin(a))
+        return lo, la
+
+    out = []
+    for ncross in (1, 2, 0):
+        centres = [rng.choice([-1, 1]) * rng.uniform(177, 179.5) for _ in range(ncross)] + \
+                  [rng.uniform(-60, 60) for _ in range(3 - ncross)]
+        blocks = [face(c, rng.uniform(-50, 50), rng.choice([3, 4, 5, 6]), rng.uniform(4, 8), rng.uniform(0, 360))
+                  for c in centres]
+        perms = list(itertools.permutations(range(3))) if ncross else [(0, 1, 2)]
+        for perm in perms:
+            lon, lat, faces = [], [], []
+            for b in perm:
+                lo, la = blocks[b]
+                faces.append(list(range(len(lon), len(lon) + len(lo))))
+                lon += lo
+                lat += la
+            out.append((faces, np.array(lon), np.array(lat), "crossing-at"))
+    # four faces, the single crossing one in each of the four positions
+    blocks = [face(rng.choice([-1, 1]) * rng.uniform(177, 179.5), rng.uniform(-40, 40), 4, 6.0, rng.uniform(0, 360))] + \
+             [face(rng.uniform(-100, 100), rng.uniform(-50, 50), rng.choice([3, 5, 6]), rng.uniform(4, 8), rng.uniform(0, 360))
+              for _ in range(3)]
+    for pos in range(4):
+        order = [1, 2, 3]
+        order.insert(pos, 0)
+        lon, lat, faces = [], [], []
+        for b in order:
+            lo, la = blocks[b]
+            faces.append(list(range(len(lon), len(lon) + len(lo))))
+            lon += lo
+            lat += la
+        out.append((faces, np.array(lon), np.array(lat), "crossing-at"))
+    return out
+
+
 def exact180(rng):
     """faces with a boundary segment spanning EXACTLY 180 deg of longitude ("at least 180" in the property),
     next to ordinary ones; all longitudes are exact in float32"""
@@ -902,6 +966,7 @@ def mesh_stream(ctx, rng, big):
     for k in (1, 2, 3):
         out.append(strip(rng, k))
     out.append(exact180(rng))
+    out += crossing_at(rng)
     out += [strip(rng, rng.randint(2, 4), clockwise=True) for _ in range(ctx.n(2, 6))]
     zoo = meshes.zoo(rng, big=False)
     zoo += [meshes.patch(rng.choice([2, 3]), 2, lon0=rng.choice([168.0, 171.0, -179.0]), lat0=rng.choice([-20, 40])),
@@ -997,15 +1062,17 @@ def run(ctx):
         if nosplit:
             ctx.hit("split-undefined(exact 180 deg segment)")
         singles = [o for o in singles if not (PE[o["pe"]] == "split" and o["proj"] in nosplit)]
+        if kind == "crossing-at" and not big:
+            singles = [o for o in singles if PE[o["pe"]] != "ignore" and o["proj"] in (0, 3)]
         if t.n > 8 and not big:
             singles = rng.sample(singles, len(singles) // 3)
         for op in singles:
             report(ctx, ux, t, [op], "single", memo)
         # 2. histories
         hs = []
-        if mi % 3 == 0 or t.n <= 6:
+        if (mi % 3 == 0 or t.n <= 6) and not (kind == "crossing-at" and not big):
             hs += [h for h in directed_histories() if all(o["proj"] in projs for o in h)]
-        for _ in range(n_hist if t.n <= 30 else max(1, n_hist // 3)):
+        for _ in range((1 if kind == "crossing-at" and not big else n_hist) if t.n <= 30 else max(1, n_hist // 3)):
             h = [rand_op(rng) for _ in range(rng.randint(2, 7))]
             hs.append([dict(o, proj=o["proj"] if o["proj"] in projs else 0) for o in h])
         for h in hs:
